@@ -112,7 +112,17 @@ func runC23(c *Ctx) {
 			if cl := callOf(v); cl != nil && strings.HasSuffix(calleeName(&cl.Call), ".emsaPSSVerify") {
 				a := cl.Call.Args
 				det = fmt.Sprintf("%s | %s | %s | %s | %s", Expr(a[0]), Expr(a[1]), Expr(a[2]), Expr(a[3]), Expr(a[4]))
-				ok = Expr(a[0]) == "digest" && strings.HasPrefix(Expr(a[1]), "φ(rsa.encrypt(pub,sig)#0|") && Expr(a[2]) == "((*math/big.Int).BitLen(pub.N)-1)" &&
+				// the recovered EM, possibly with leading zero octets stripped (in place or by a helper handed the EM)
+				emOK := strings.HasPrefix(Expr(a[1]), "φ(rsa.encrypt(pub,sig)#0|")
+				if x := stripConv(a[1]); !emOK {
+					if ex, isEx := x.(*ssa.Extract); isEx {
+						x = ex.Tuple
+					}
+					if hc := callOf(x); hc != nil && hc.Call.StaticCallee() != nil && InModule(hc.Call.StaticCallee()) && len(hc.Call.Args) > 0 && Expr(hc.Call.Args[0]) == "rsa.encrypt(pub,sig)#0" {
+						emOK = true
+					}
+				}
+				ok = Expr(a[0]) == "digest" && emOK && Expr(a[2]) == "((*math/big.Int).BitLen(pub.N)-1)" &&
 					Expr(a[3]) == "(*rsa.PSSOptions).saltLength(opts)" && Expr(a[4]) == "(crypto.Hash).New(hash)"
 			}
 		}
